@@ -440,6 +440,14 @@ func checkC14(c *Ctx) {
 			o.Set("x", avInt(1))
 			o.Set("y", avInt(2))
 		}
+		// bytes that are not UTF-8 inside a quoted literal: the lexer reads them as U+FFFD, which a string literal may
+		// contain, so the text stays a sentence for every entry point alike
+		if i >= len(corpusTexts) && c.R.Chance(1, 20) {
+			if q := strings.Index(s, "\""); q >= 0 && q+1 < len(s) {
+				s = s[:q+1] + pick(c.R, []string{"\xff", "a\xffb", "\xc3(", "\xed\xa0\x80", "\xf0\x28"}) + s[q+1:]
+				c.count("non_utf8_bytes_inside_a_literal")
+			}
+		}
 		m := o.GoMap()
 		// a third of the cases: Process on an evaluator that has already processed other objects (some of them failing) -
 		// still "NewEvaluator followed by Process"; the one-shot entry points must agree with it all the same
